@@ -257,9 +257,9 @@ def noSpace (s : Str) : Bool := s.all (fun c => !isSpace c)
 
 def wfMnem (s : Str) : Bool :=
   !s.isEmpty && s.all (fun c => !isSpace c && c != '.' && c != ':') &&
-  s.head? != some '#' && s.head? != some '~' && stringToValue s == .text s
+  s.head? != some '#' && s.head? != some '~'
 
-def wfUnit (s : Str) : Bool := s.all (fun c => !isSpace c && c != ':') && stringToValue s == .text s
+def wfUnit (s : Str) : Bool := s.all (fun c => !isSpace c && c != ':')
 
 def wfDesc (s : Str) : Bool := s.all (fun c => c != ':' && c != '\n') && stringToValue s == .text s
 
